@@ -150,6 +150,10 @@ def jobs(tier, seed):
     for pn in ('one', 'short', 'x1f'):
         for cod in ('gzip9', 'zlib', 'raw'):
             js.append(dict(kind='corrupt', payload=pn, coding=cod, tier=tier))
+    # two responses decoded by the same Stream object (persistent connection): the coding
+    # state of the first must not leak into the second
+    for c1 in CODINGS:
+        js.append(dict(kind='reuse', first=c1, tier=tier))
     if tier != 'quick':
         js.append(dict(kind='corrupt', payload='rand300', coding='gzip9', tier=tier))
         js.append(dict(kind='corrupt', payload='rand300', coding='raw', tier=tier))
@@ -163,6 +167,8 @@ def run_job(job):
     _imports()
     res = dict(evaluations=0, states=set(), transitions=0, outcomes={}, violations=[],
                samples=[], distinct=set(), extra={})
+    if job['kind'] == 'reuse':
+        return run_reuse(job, res)
     payload = PAYLOADS[job['payload']]
     declared, wire = encode(payload, job['coding'])
     tag = '%s/%s' % (job['payload'], job['coding'])
@@ -246,6 +252,64 @@ def run_job(job):
     return res
 
 
+def simple_plans(n, tier):
+    plans = [[], list(range(1, n))] + [[c] for c in range(1, n)]
+    if tier != 'quick':
+        plans += [[a, b] for a in range(1, min(n, 14)) for b in range(a + 1, min(n, 14))]
+    return plans
+
+
+def decode_on(stream, declared, pieces):
+    resp = Response(200, 'OK')
+    if declared:
+        resp.fields['Content-Encoding'] = declared
+    stream._setup_decompressor(resp)
+    out = []
+    try:
+        for p in pieces:
+            out.append(stream._decompress_data(p))
+        out.append(stream._flush_decompressor())
+    except ProtocolError:
+        return ('err', None)
+    return ('ok', b''.join(out))
+
+
+def run_reuse(job, res):
+    c1 = job['first']
+    for p1, p2 in (('short', 'x1f'), ('x1f', 'short'), ('one', 'empty'), ('empty', 'short')):
+        d1, w1 = encode(PAYLOADS[p1], c1)
+        for c2 in CODINGS:
+            d2, w2 = encode(PAYLOADS[p2], c2)
+            ref1, ref2 = reference(d1, w1), reference(d2, w2)
+            tag = '%s/%s then %s/%s' % (p1, c1, p2, c2)
+            for cuts1 in simple_plans(len(w1), 'quick'):
+                for cuts2 in simple_plans(len(w2), job['tier']):
+                    stream = Stream(None)
+                    g1 = decode_on(stream, d1, split(w1, cuts1))
+                    g2 = decode_on(stream, d2, split(w2, cuts2))
+                    res['evaluations'] += 1
+                    res['transitions'] += 2
+                    key = 'reuse:%s:%s' % (g1[0], g2[0])
+                    res['outcomes'][key] = res['outcomes'].get(key, 0) + 1
+                    v = None
+                    if ref1[0] == 'ok' and g1 != ref1:
+                        v = 'first body decoded %s, reference %s' % (show(g1), show(ref1))
+                    elif ref2[0] == 'ok' and g2 != ref2:
+                        v = ('second body on the same stream decoded %s, reference %s'
+                             % (show(g2), show(ref2)))
+                    if v and len(res['violations']) < 3:
+                        res['violations'].append(dict(
+                            violation='%s [%s, splits %s / %s]' % (v, tag, summ(cuts1),
+                                                                   summ(cuts2)),
+                            signature='C19:reuse:%s:%s' % (c1, c2), kind='reuse',
+                            d1=d1, w1=w1.decode('latin-1'), cuts1=cuts1,
+                            d2=d2, w2=w2.decode('latin-1'), cuts2=cuts2))
+            res['distinct'].add(h64((tag, 'reuse')))
+            res['states'].add(h64((tag, 'reuse')))
+    res['samples'].append(dict(mode='two bodies on one Stream object', first_coding=c1))
+    return res
+
+
 def long_body_cutsets(n, head):
     pos = list(range(1, n))
     yield []
@@ -273,6 +337,15 @@ def show(r):
 
 def replay(rec):
     _imports()
+    if rec.get('kind') == 'reuse':
+        w1, w2 = rec['w1'].encode('latin-1'), rec['w2'].encode('latin-1')
+        stream = Stream(None)
+        g1 = decode_on(stream, rec['d1'], split(w1, rec['cuts1']))
+        g2 = decode_on(stream, rec['d2'], split(w2, rec['cuts2']))
+        r1, r2 = reference(rec['d1'], w1), reference(rec['d2'], w2)
+        bad = (r1[0] == 'ok' and g1 != r1) or (r2[0] == 'ok' and g2 != r2)
+        return (rec['violation'] if bad else None), (rec['signature'] if bad else None), \
+            [show(g1), show(g2)]
     wire = rec['wire'].encode('latin-1')
     got = stream_decode(rec['declared'], split(wire, rec['cuts']))
     one = stream_decode(rec['declared'], [wire] if wire else [])
@@ -292,7 +365,9 @@ def describe(tier):
              '2^(n-1) splits; longer: all cut sets with <=2-3 cuts plus every subset of '
              'the first 10-12 positions (where the format is sniffed) x <=1 later cut, '
              'plus all-single-bytes; corrupt = every truncation and every 1-byte '
-             'substitution by {00, FF, b^01}.  distinct = (payload, coding, mode)'
+             'substitution by {00, FF, b^01}; two bodies (every ordered pair of codings x 4 '
+             'payload pairs) decoded one after the other by the same Stream object under whole / '
+             'single-byte / every single-cut splits of each.  distinct = (payload, coding, mode)'
              % (sorted(PAYLOADS), CODINGS, 15 if tier == 'quick' else 21),
         bounds=dict(full_split_limit=15 if tier == 'quick' else 21),
         assumptions=['zlib inflate is a byte-serial transducer (its state after a piece '
